@@ -4,6 +4,8 @@ R9.1 the marker is written only at thread end, after which nothing more is writt
 R9.2 relocation (OVNI_TMPDIR) moves the file carrying the marker last, and only if every other
      file of the stream reached the final directory
 R9.3 the emulator rejects a stream without the marker, and that failure reaches the exit status
+R9.4 the metadata file is written next to the event stream (same directory, the one that is relocated), so
+     the marker never reaches the final place ahead of the data
 """
 import itertools
 
@@ -177,6 +179,64 @@ def run(ctx):
             if failing is None and sorted(names) != sorted(order):
                 bad.append("moved %s of %s" % (names, order))
             ctx.check(not bad, "R9.2", inst, mv.loc(), "; ".join(bad))
+
+    # ---- R9.4 ---------------------------------------------------------------------------------
+    ctx.rule("R9.4", "create_trace_stream opens <procdir>/thread.<tid>/stream.obs and thread_metadata_store writes "
+             "<procdir>/thread.<tid>/stream.json with the same procdir (the temporary one when OVNI_TMPDIR is in "
+             "use), evaluated with and without relocation: the marker is stored beside the data and only the "
+             "relocation of R9.2 brings it to the final directory")
+
+    def strval2(st, a):
+        if a[0] == "str":
+            return a[1]
+        if a[0] == "int":
+            return a[1]
+        if a[0] == "ptr":
+            path = a[2][:-1] if a[2] and a[2][-1] == 0 else a[2]
+            v = st.store.get((a[1], path))
+            if v and v[0] == "str":
+                return v[1]
+        return None
+
+    def s_snprintf2(ex_, st, args, f, e):
+        fmt = strval2(st, args[2]) if len(args) > 2 else None
+        vals = [strval2(st, a) for a in args[3:]]
+        d = args[0]
+        if fmt is None or any(v is None for v in vals) or d[0] != "ptr":
+            return None
+        try:
+            out = fmt % tuple(vals)
+        except Exception:
+            return None
+        path = d[2][:-1] if d[2] and d[2][-1] == 0 else d[2]
+        return [(INT(len(out)), {(d[1], path): ("str", out)})]
+    for relocating in (0, 1):
+        got = {}
+
+        def s_open(ex_, st, args, f, e, got=got):
+            got["obs"] = strval2(st, args[0])
+            return [(INT(9), {})]
+
+        def s_ser(ex_, st, args, f, e, got=got):
+            got["json"] = strval2(st, args[1])
+            return [(INT(0), {})]
+        ex4 = absint.Explorer(prog, effects=eff, summaries={"snprintf": s_snprintf2, "__builtin___snprintf_chk": s_snprintf2,
+                                                           "open": s_open, "json_serialize_to_file_pretty": s_ser})
+        store = {(RP, F("ovni_rproc", "procdir")): ("str", "TMP" if relocating else "FINAL"),
+                 (RP, F("ovni_rproc", "procdir_final")): ("str", "FINAL"),
+                 (RP, F("ovni_rproc", "move_to_final")): INT(relocating),
+                 (RT, F("ovni_rthread", "tid")): INT(5), (RT, F("ovni_rthread", "meta")): PTR("META")}
+        cts = prog.fn("create_trace_stream", OV)
+        tms = prog.fn("thread_metadata_store", OV)
+        o1 = [o for o in ex4.run(cts, [], store) if o.kind in ("ret", "exit")]
+        o2 = [o for o in ex4.run(tms, [], store) if o.kind in ("ret", "exit")]
+        ctx.need(o1 and o2 and got.get("obs") and got.get("json"),
+                 "cannot resolve the paths of the stream / metadata files (%s)" % got)
+        want = "TMP" if relocating else "FINAL"
+        good = got["obs"] == want + "/thread.5/stream.obs" and got["json"] == want + "/thread.5/stream.json"
+        ctx.check(good, "R9.4", "paths:relocating=%d" % relocating, tms.loc(),
+                  "with%s relocation the event stream is %s and the metadata (finished marker) is %s; expected both in "
+                  "%s/thread.5" % ("" if relocating else "out", got["obs"], got["json"], want))
 
     # ---- R9.3 ---------------------------------------------------------------------------------
     tl = prog.fn("thread_load_metadata", "src/emu/thread.c")
